@@ -253,6 +253,23 @@ impl Hist {
             .filter(move |(_, l)| l.from <= t + slack && t <= l.until + slack)
     }
 
+    /// Was the record withdrawn by a goodbye by the time an event at `t` was built? The latest
+    /// reception at or before `t` carried TTL 0 (the record stays cached for one more second,
+    /// but must not be used). A goodbye arriving at the very instant `t` counts only when it was
+    /// the single packet of that instant (the event cannot have been built before it).
+    pub fn withdrawn_at(&self, life: &Life, t: u64) -> bool {
+        let Some((at, ttl)) = life.receptions.iter().filter(|(at, _)| *at <= t).next_back() else { return false };
+        if *ttl != 0 {
+            return false;
+        }
+        if *at < t {
+            return true;
+        }
+        let mut packets: Vec<usize> = self.deliveries.iter().filter(|d| d.t == t).map(|d| d.packet).collect();
+        packets.dedup();
+        packets.len() == 1
+    }
+
     /// Records matching `pred` that are certainly held at `t` (strictly inside, `slack` away
     /// from both ends).
     pub fn surely_live<'a>(
